@@ -135,6 +135,7 @@ func vLockAcquire(rank int) {
 	if vRaceMode && !vOnMain() {
 		return // the touchers of a lockset replay are not code under check
 	}
+	vMaybePreempt() // the other goroutine may get in just before this lock is taken
 	held := vRanks()
 	for _, h := range *held {
 		vRankAssert(h < rank, "lock hierarchy: "+vRankNames[rank]+" is acquired while "+vRankNames[h]+" is held")
@@ -174,12 +175,16 @@ func vLockRelease(rank int) {
 			break
 		}
 	}
-	// one context switch (vPreemptWith): at any point where the harness goroutine has just
-	// released a lock and holds none, a second API call may run to completion before the
-	// first continues. Every such schedule is a real one (the second goroutine simply gets
-	// the processor there); the choice is part of the replay vector, so the native replay
-	// takes the same switch.
-	if vPreemptBody != nil && len(vHeldRanks) == 0 {
+	vMaybePreempt()
+}
+
+// vMaybePreempt is one context switch (vPreemptWith): at any point where the harness
+// goroutine has just released a lock, or is about to take one, and holds none, a second API
+// call may run to completion before the first continues. Every such schedule is a real one
+// (the second goroutine simply gets the processor there); the choice is part of the replay
+// vector, so the native replay takes the same switch.
+func vMaybePreempt() {
+	if vPreemptBody != nil && vOnMain() && len(vHeldRanks) == 0 {
 		if vPick(2) == 1 {
 			f := vPreemptBody
 			vPreemptBody = nil
@@ -311,4 +316,23 @@ func (l *vLkTimer) TryLock() bool {
 		vLockTaken(3)
 	}
 	return ok
+}
+
+// vWorkBegin(k, msg) .. vWorkEnd(): a bound on the work done by the code in between. Engine:
+// at most k interpreted instructions, more is a violation. Native (violation replays only):
+// the section must not take longer than k x 10 ns on the wall clock.
+var (
+	vWorkStart time.Time
+	vWorkK     int
+	vWorkMsg   string
+)
+
+func vWorkBegin(k int, msg string) { vWorkStart, vWorkK, vWorkMsg = time.Now(), k, msg }
+
+func vWorkEnd() {
+	if vRealtime && vWorkK > 0 && time.Since(vWorkStart) > time.Duration(vWorkK)*10*time.Nanosecond {
+		vWorkK = 0
+		panic(vAssertFail{vWorkMsg})
+	}
+	vWorkK = 0
 }
